@@ -79,6 +79,7 @@ def _c09_shared(sub):
   from mlmverif.props import c09
   sub.guard(c09.r2)
   sub.guard(c09.r6)
+  sub.guard(c09.r10)
   sub.guard(c09.r1)
 
 
